@@ -35,13 +35,21 @@ func VerifC16_PassThroughAndRecord() {
 	cfg := &config.Config{MessageLogDirectory: dir}
 	verifWatchDailyLog(dir, "rtcmlogger.", ".rtcm")
 	verifSetStdin(in, chunk)
+	// the consumer of standard output may have gone (every write fails):
+	// the record must be complete all the same
+	broken := mode == 0 && n <= 5 && verifParam("stdout-broken", 0, 1) == 1
+	if broken {
+		verifStdoutBroken()
+	}
 	verifWitness("reached")
 	start(cfg)
 	recordedAtExit := verifDailyLog(dir, "rtcmlogger.")
 	verifRestoreStdio()
 	verifWitness("returned")
 	out := verifStdout()
-	verifAssert("stdout-identical-to-stdin", verifBytesEq(out, in))
+	if !broken {
+		verifAssert("stdout-identical-to-stdin", verifBytesEq(out, in))
+	}
 	verifAssert("record-complete-when-the-program-ends", verifBytesEq(recordedAtExit, in))
 	verifQuiesce()
 	verifAssert("record-identical-to-stdin", verifBytesEq(verifDailyLog(dir, "rtcmlogger."), in))
